@@ -5,6 +5,7 @@ import (
 
 	"github.com/miekg/dns"
 	"github.com/semihalev/sdns/internal/dnsutil"
+	"github.com/semihalev/sdns/middleware"
 )
 
 // Network and authority errors. DNSSEC-specific sentinels live in
@@ -42,6 +43,7 @@ var (
 	errResolutionCapacity = &dnsutil.EDEError{
 		Code:    dns.ExtendedErrorCodeNoReachableAuthority,
 		Message: "Resolver at in-flight resolution capacity",
+		Err:     middleware.ErrResolutionShed,
 	}
 	// errZoneCapacity is destination-scoped shedding: THIS zone's in-flight
 	// quota is exhausted (its authorities are almost certainly not
@@ -49,6 +51,7 @@ var (
 	errZoneCapacity = &dnsutil.EDEError{
 		Code:    dns.ExtendedErrorCodeNoReachableAuthority,
 		Message: "Zone at in-flight lookup capacity",
+		Err:     middleware.ErrResolutionShed,
 	}
 )
 
